@@ -102,13 +102,19 @@ def run(ctx):
         for i, o in zip(bad[:40], outs):
             c, cpts, rows, _ = metas[i]
             flags = o.replace("\n", " ")
-            spec_ok = flags.lstrip("= (").split(",")[0].strip()
+            spec_ok, model_eq, iv_ok, rows_ok = [x.strip() for x in flags.lstrip("= (").split(",")[:4]]
             inp = jcase(c)
             inp.update({"impl_changepoints": cpts, "impl_scores_table": rows, "coq": flags[:1200]})
             if spec_ok == "false":
                 ctx.violation(f"SeededBinarySegmentation output violates C07: n={c['n']} m={c['m']} maxlen={c['maxlen']} g={c['g']} "
                               f"thr={c['thr']} cpts={cpts} n_intervals={len(rows)} (Coq flags: {flags[:120]})", inp,
                               {"what": "spec", "no_intervals": len(rows) == 0})
+            elif iv_ok == "true" and rows_ok == "true":
+                # intervals, scores and maximisers agree with the model, the reported changepoints do not: the property says they are
+                # EXACTLY the greedy picks (the model is that procedure), so this is a failing input, not just a broken tie
+                ctx.violation(f"SeededBinarySegmentation changepoints {cpts} are not the greedy above-threshold picks (take the maximiser of the highest-scoring "
+                              f"remaining interval, discard every interval containing it): n={c['n']} m={c['m']} maxlen={c['maxlen']} thr={c['thr']}", inp,
+                              {"what": "greedy-selection"})
             else:
                 ctx.mismatch(f"SBS model <> implementation: n={c['n']} m={c['m']} maxlen={c['maxlen']} g={c['g']}", inp,
                              {"what": "model-mismatch"})
@@ -119,3 +125,10 @@ def run(ctx):
         inp.update({"cpts_at_thr": cpts, "cpts_at_higher_thr": cpts2})
         ctx.violation(f"raising the threshold from {c['thr']} to {c['thr'] + c['dthr']} added changepoints: {cpts} -> {cpts2}", inp,
                       {"what": "threshold-monotonicity"})
+    # ---- object reuse: built-in scores, the same detector over several series ----
+    from harness.reuse import reuse_stream
+    from skchange.change_detectors import SeededBinarySegmentation
+    from skchange.costs import L2Cost
+    reuse_stream(ctx, "SeededBinarySegmentation(CUSUM)", lambda: SeededBinarySegmentation(min_segment_length=2),
+                 ctx.n(6, 40), tuned_make=lambda: SeededBinarySegmentation(min_segment_length=2, threshold_scale=None, level=0.1))
+    reuse_stream(ctx, "SeededBinarySegmentation(L2Cost)", lambda: SeededBinarySegmentation(change_score=L2Cost(), min_segment_length=3), ctx.n(3, 20))
